@@ -630,7 +630,7 @@ def bus_glue_grid(tier, seed=0):
            ("axi-lite", 32, 32, "byte", 32)]
     rest = [c for c in full if c not in key]
     k = (seed * 5) % len(rest)
-    return key + (rest + rest)[k:k + 4]
+    return key + (rest + rest)[k:k + 8]
 
 
 def glue_instances(tier="quick", seed=0):
@@ -653,6 +653,8 @@ def _glue_worker(arg):
     import explore, random
     k, seed, cycles, tier = arg
     inst = glue_instances(tier, seed)[k]()
+    if inst.name.startswith("busglue"):
+        cycles = 600 if tier == "quick" else 3000
     rng = random.Random(seed * 104729 + k)
     mon = inst.monitor()
     trace, distinct, fail = [], 0, None
